@@ -39,6 +39,20 @@ def gen_cases(rng, tier, drift):
         cfg["shuffle"] = cfg["kind"] == "map" and cfg["n"] > 0 and rng.random() < 0.4
         cfg["gseed"] = rng.randint(0, 999)
         cases.append(dict(kind="free", cfg=cfg, in_order=rng.random() < 0.7, epochs=rng.choice([1, 2, 3])))
+    for i in range(n_f // 2):
+        # persistent workers across epochs, some epochs abandoned part-way (break): every later epoch must again be complete
+        cfg = si.gen_cfg(rng, maxW=3)
+        cfg["persistent"] = True
+        cfg["I"] = rng.choice([0, 1, 1, 2])
+        if cfg["kind"] == "map":
+            cfg["n"] = max(cfg["n"], 4)
+        else:
+            cfg["sizes"] = [max(x, 2) for x in cfg["sizes"]]
+            # a dataset object that keeps its position lives on in a persistent worker: after an abandoned epoch the next
+            # one would start wherever prefetching had got to (timing dependent) - use datasets that restart per epoch
+            cfg["stateful"], cfg["rewind"], cfg["eager"] = False, False, False
+        cases.append(dict(kind="free", cfg=cfg, in_order=(i % 2 == 0), epochs=3,
+                          abandon=[rng.choice([None, None, rng.randint(0, 3)]) for _ in range(3)]))
     return cases
 
 
@@ -72,6 +86,21 @@ def run_impl(c):
         sdl = si.make_loader(cfg, in_order=c["in_order"]) if cfg["W"] > 0 else si.make_loader(cfg)
         tdl = si.make_loader(cfg, cls=tud.DataLoader)
         for e in range(c["epochs"]):
+            cut = (c.get("abandon") or [None] * c["epochs"])[e]
+            if cut is not None:
+                # abandoned epoch: take `cut` batches and break; in order they must be torch's first `cut` batches
+                a, b = [], []
+                for x in sdl:
+                    if len(a) >= cut:
+                        break
+                    a.append(si.norm_batch(x))
+                for x in tdl:
+                    if len(b) >= cut:
+                        break
+                    b.append(si.norm_batch(x))
+                if (c["in_order"] or cfg["W"] == 0) and not cfg.get("shuffle") and a != b:
+                    fails.append(f"epoch {e} (abandoned after {cut}): {a} != torch DataLoader {b}")
+                continue
             a = [si.norm_batch(b) for b in sdl]
             b = [si.norm_batch(x) for x in tdl]
             if cfg.get("shuffle"):
@@ -89,7 +118,7 @@ def run_impl(c):
                 if sorted(map(tuple, a)) != sorted(map(tuple, b)):
                     fails.append(f"epoch {e}: in_order=False multiset {sorted(a)} != {sorted(b)}")
         del sdl, tdl
-        return dict(oracle="; ".join(fails[:2]) or None, nontrivial=cfg["W"] >= 1, key=[cfg, c["in_order"], c["epochs"]])
+        return dict(oracle="; ".join(fails[:2]) or None, nontrivial=cfg["W"] >= 1, key=[cfg, c["in_order"], c["epochs"], c.get("abandon")])
     finally:
         si.kill_children()
 
